@@ -528,7 +528,11 @@ func c17OracleRun(cs c17Case, decoded []cogyaml.Veneers, wantStatus string, want
 		var out []ast.Builder
 		out, status = applyStep(cs.schemas, bs, st)
 		if status != "ok" {
-			statParts = append(statParts, fmt.Sprintf("%s:%s", st.kind, status))
+			which := "option-"
+			if st.isBuilder {
+				which = "builder-"
+			}
+			statParts = append(statParts, fmt.Sprintf("%s%s:%s", which, st.kind, status))
 			break
 		}
 		bs = out
@@ -817,13 +821,18 @@ func c17CheckOptionContract(st vStep, who, bkey string, old optSnap, outs []optS
 	}
 }
 
+// c17Stats: per-step summary of the last oracle run ("kind:selected,…" / "kind:panic"), 5th column of the rows
+var c17Stats string
+
 func c17OracleFailed(cs c17Case, decoded []cogyaml.Veneers, status string) string {
-	v, _ := c17OracleRun(cs, decoded, status, "")
+	v, st := c17OracleRun(cs, decoded, status, "")
+	c17Stats = st
 	return v
 }
 
 func c17Oracle(cs c17Case, decoded []cogyaml.Veneers, out []ast.Builder) string {
-	v, _ := c17OracleRun(cs, decoded, "ok", virBuilders(out))
+	v, st := c17OracleRun(cs, decoded, "ok", virBuilders(out))
+	c17Stats = st
 	return v
 }
 
